@@ -29,6 +29,7 @@ def run(ctx):
     U = l1_l2(ctx, F)
     l3(ctx, F, U)
     l4(ctx, F, U)
+    l5(ctx, F)
 
 
 def const_of(t, F):
@@ -218,6 +219,37 @@ def l3(ctx, F, U):
     ctx.check("C08.L3", "history-index-in-range", ok, fn="chess::move_struct::Move::index_history", file="src/chess/move_struct.rs",
               what="history is indexed by as_index*64 + as_usize (<= 11*64+63): the table must have 768 slots",
               expected="len >= 768, index = as_index*64 + as_usize", found={"len": hl, "index": hir.fmt(ih, 200)})
+
+
+def l5(ctx, F):
+    """Every loop of the driver (helpers expanded) is a `for` over a bounded numeric range: the iteration loop and the PV walk.
+    A `while`/`loop` - waiting for a flag after the depth range is exhausted, following table links until they end - has no bound
+    the driver controls, so a search with a depth limit may never answer or walk without end."""
+    fn = F.fn(DRIVER)
+    sym = hir.Sym(hir.Env(fn["hir"], F), F)
+    bad = []
+    n = 0
+    for lp, anc in hir.walk(fn["hir"]["body"]):
+        if lp.get("k") != "Loop" or any(a.get("k") == "Closure" for a in anc):
+            continue
+        n += 1
+        src = str(lp.get("src"))
+        it = None
+        if "ForLoop" in src:
+            m_ = [a for a in anc if a.get("k") == "Match" and a.get("src") == "ForLoopDesugar"]
+            if m_:
+                it = hir.resolve_consts(sym(m_[-1]["e"]), F)
+                if it[0] == "call" and str(it[1]).endswith("into_iter"):
+                    it = it[2][0]
+        t = hir.fmt(it, 100) if it is not None else src
+        bounded = it is not None and ((it[0] == "struct" and str(it[1]).endswith("ops::Range")) or
+                                      (it[0] == "call" and str(it[1]).endswith("RangeInclusive::<Idx>::new")))
+        if not bounded:
+            bad.append((hir.line(lp), t))
+    ctx.check("C08.L5", "every-driver-loop-has-a-bounded-trip-count", not bad and n >= 1, fn=DRIVER, file=fn["file"],
+              line=bad[0][0] if bad else fn["span"][0],
+              what="the search driver contains a loop without a bounded trip count (a wait on the stop flag, an open-ended walk through the "
+                   "table): a search that should end by itself may never answer", expected="for .. in a..b / a..=b only", found=bad or "%d loops" % n)
 
 
 def l4(ctx, F, U):
